@@ -318,6 +318,40 @@ func C17(rep *ev.Reporter, tier string) {
 				report("C17:ungrammatical-document-accepted:"+v.Reason+":"+mclass, fmt.Sprintf("the independent recogniser rejects the text (%s; mutation %s) but the builder returned nil; knowledge base holds %v", v.Reason, j.m.class, o.rules), id, j.m.text)
 				return
 			}
+			// whatever the rejected text left in the knowledge base is usable: executing it never fails INSIDE the
+			// engine (a damaged rule - parsed with a hole - shows as a reflect / nil-pointer failure when it fires)
+			if len(o.rules) > 0 {
+				var dmg string
+				func() {
+					defer func() {
+						if r := recover(); r != nil {
+							dmg = fmt.Sprintf("PANIC %v", r)
+						}
+					}()
+					kb, err := lib.NewKnowledgeBaseInstance("KB", "1")
+					if err != nil {
+						dmg = "instance: " + err.Error()
+						return
+					}
+					w := ref.NewWorld()
+					w.Objs["F"] = facts.New()
+					w.Objs["K"] = facts.New()
+					tr := hx.RunOn(&hx.Program{ByName: map[string]*grl.Rule{}}, kb, w, hx.RunOpts{MaxCycle: 4, NoSnapshots: true}, nil)
+					if tr.Panic != nil {
+						dmg = fmt.Sprintf("PANIC %v", tr.Panic)
+					} else if tr.Err != nil {
+						for _, k := range []string{"reflect:", "zero Value", "nil pointer", "invalid memory", "interface conversion"} {
+							if strings.Contains(tr.Err.Error(), k) {
+								dmg = firstLineOf(tr.Err.Error())
+							}
+						}
+					}
+				}()
+				if dmg != "" {
+					report("C17:damaged-rule-added-by-a-rejected-text:"+c17DamageClass(dmg), fmt.Sprintf("the text is rejected (%s; mutation %s) but left rules %v in the knowledge base, and executing them fails inside the engine: %s", v.Reason, j.m.class, o.rules, dmg), id, j.m.text)
+					return
+				}
+			}
 			if !v.Syntax && (!o.reporter || o.nErrors < 1) {
 				report("C17:syntax-error-without-error-reporter:"+v.Reason, fmt.Sprintf("error is %T (%v), not a GruleErrorReporter with entries", o.err, firstLineOf(o.err.Error())), id, j.m.text)
 			}
@@ -433,7 +467,7 @@ func C17(rep *ev.Reporter, tier string) {
 		rep.Exhaustive = false
 		rep.Coverage["caps_hit"] = "time budget"
 	}
-	rep.Coverage["rule"] = fmt.Sprintf("%d valid documents covering every grammar alternative; for each EVERY single mutation at EVERY token position (delete, duplicate, swap with next, replace by / insert each of %d alphabet tokens: keywords in several cases, all punctuation and operators, identifiers incl. reserved-word look-alikes, every literal class incl. out-of-range and malformed ones, illegal characters, comment openers) and character-level delete / insert / replace with %d characters (quick: at every 3rd byte). Oracle: an independent recogniser (maximal-munch lexer transcribed from the token rules + Earley recogniser over the literally transcribed parser rules + literal validity + distinct names): BuildRuleFromResource == nil iff it accepts; on acceptance the knowledge base holds exactly the declared rules (name, unquoted description, salience); a lexical/syntactic rejection is a GruleErrorReporter with >= 1 entry; never a panic. For rejected mutants (quick: every 5th) the text is also built after a good 2-rule resource: the good rules must still instantiate, execute, store and load with unchanged behaviour; and after a good resource whose rules carry the SAME NAMES as the document's (so the text - valid or mutant - is rejected at least for the name clash): the loaded rules still behave as before. Every 20th mutant (thorough: every one) goes through the four multi-resource entry points (BuildRuleFromResources, MustBuildRuleFromResources, BuildRulesFromBundle, MustBuildRulesFromBundle) alone, after a good resource, before one and between two: the call fails (panics) iff the recogniser rejects the text.", len(docs), len(c17Alphabet), len(c17Chars))
+	rep.Coverage["rule"] = fmt.Sprintf("%d valid documents covering every grammar alternative; for each EVERY single mutation at EVERY token position (delete, duplicate, swap with next, replace by / insert each of %d alphabet tokens: keywords in several cases, all punctuation and operators, identifiers incl. reserved-word look-alikes, every literal class incl. out-of-range and malformed ones, illegal characters, comment openers) and character-level delete / insert / replace with %d characters (quick: at every 3rd byte). Oracle: an independent recogniser (maximal-munch lexer transcribed from the token rules + Earley recogniser over the literally transcribed parser rules + literal validity + distinct names): BuildRuleFromResource == nil iff it accepts; on acceptance the knowledge base holds exactly the declared rules (name, unquoted description, salience); a lexical/syntactic rejection is a GruleErrorReporter with >= 1 entry; never a panic; whatever rules a rejected text leaves in the knowledge base can be instantiated and executed without a failure inside the engine (no damaged rule is added). For rejected mutants (quick: every 5th) the text is also built after a good 2-rule resource: the good rules must still instantiate, execute, store and load with unchanged behaviour; and after a good resource whose rules carry the SAME NAMES as the document's (so the text - valid or mutant - is rejected at least for the name clash): the loaded rules still behave as before. Every 20th mutant (thorough: every one) goes through the four multi-resource entry points (BuildRuleFromResources, MustBuildRuleFromResources, BuildRulesFromBundle, MustBuildRulesFromBundle) alone, after a good resource, before one and between two: the call fails (panics) iff the recogniser rejects the text.", len(docs), len(c17Alphabet), len(c17Chars))
 	rep.Assumptions = append(rep.Assumptions, "the recogniser was validated against the valid corpus and every disagreement met during development was classified by hand (DESIGN.md §5 C17)")
 }
 
